@@ -121,8 +121,10 @@ fn reference(sc: &Scenario) -> Vec<(&'static str, u16, u16, u64)> {
                 for (tt, ev) in out { f.add(tt, ev); }
             }
             Ev::Unbusy => {
+                // the property: queued messages start transmission in FIFO order the instant the channel is idle —
+                // a message whose transmission time rounds to 0 ns does not occupy the channel, so the next one follows at once
                 busy = false;
-                if !queue.is_empty() {
+                while !busy && !queue.is_empty() {
                     let (id, size) = queue.remove(0); acc -= size + HEADER;
                     let mut out = vec![]; transmit(sc, t, id, size, &mut busy, &mut out);
                     for (tt, ev) in out { f.add(tt, ev); }
@@ -173,7 +175,7 @@ fn run(sc: &Scenario) -> Result<(), (&'static str, &'static str, String, String)
 
 fn gen(r: &mut dyn FnMut() -> u64) -> Scenario {
     // incl. a bitrate so high that size*8/bitrate rounds to 0 ns: the channel is then never busy
-    let bitrate = [0usize, 8_000_000, 1_000_000, 512_000, 10_000_000_000_000][(r() % 5) as usize];
+    let bitrate = [0usize, 8_000_000, 1_000_000, 512_000, 10_000_000_000_000, 1_100_000_000_000][(r() % 6) as usize];
     let latency_us = [0u64, 100, 1500][(r() % 3) as usize];
     let many = r() % 10 == 0;
     let n = if many { 22 + (r() % 20) as usize } else { 1 + (r() % 6) as usize };
